@@ -10,6 +10,8 @@ import (
 	"os"
 	"path/filepath"
 	"strings"
+	"sync"
+	"sync/atomic"
 	"testing"
 
 	txhttp "github.com/corazawaf/coraza/v3/http"
@@ -209,8 +211,10 @@ func (c *C18Case) run() (*c18Result, *Failure) {
 	wrapped := txhttp.WrapHandler(w, handler)
 	f := guard("middleware", func() {
 		if c.UseServer {
-			srv := httptest.NewServer(wrapped)
-			defer srv.Close()
+			// one listener per process (a server per case exhausts the ephemeral ports in long runs): the
+			// handler of the case is installed for the duration of its request
+			srv := c18SharedServer()
+			c18Handler.Store(&wrapped)
 			var body io.Reader = bytes.NewReader(reqBody)
 			if c.Chunked {
 				body = plainReader{bytes.NewReader(reqBody)} // unknown length -> chunked transfer encoding
@@ -220,7 +224,7 @@ func (c *C18Case) run() (*c18Result, *Failure) {
 			if c.Block {
 				req.Header.Set("X-Block", "1")
 			}
-			resp, err := srv.Client().Do(req)
+			resp, err := c18Client.Do(req)
 			if err != nil {
 				panic(fmt.Sprintf("client error: %v", err))
 			}
@@ -248,10 +252,34 @@ func (c *C18Case) run() (*c18Result, *Failure) {
 	return res, f
 }
 
+var c18Once sync.Once
+var c18Srv *httptest.Server
+var c18Handler atomic.Pointer[http.Handler]
+
+// connections are kept alive and reused (a connection per request would leave tens of thousands of sockets in
+// TIME_WAIT during long runs); net/http hands a connection back only after the response has been read completely
+var c18Client = &http.Client{Transport: &http.Transport{MaxIdleConnsPerHost: 2}}
+
+func c18SharedServer() *httptest.Server {
+	c18Once.Do(func() {
+		c18Srv = httptest.NewServer(http.HandlerFunc(func(rw http.ResponseWriter, r *http.Request) {
+			if h := c18Handler.Load(); h != nil {
+				(*h).ServeHTTP(rw, r)
+			}
+		}))
+	})
+	return c18Srv
+}
+
 func checkC18(c *C18Case) Result {
 	out := Result{}
 	r, f := c.run()
 	if f != nil {
+		if strings.Contains(f.Msg, "failed to listen on a port") || strings.Contains(f.Msg, "cannot assign requested address") || strings.Contains(f.Msg, "address already in use") {
+			// the machine ran out of ports: nothing was learnt about the middleware
+			out.Labels = append(out.Labels, "infrastructure:no-free-port")
+			return out
+		}
 		out.Fail = f
 		return out
 	}
